@@ -49,6 +49,12 @@ def mc_cfg(family, deviations=(), export=False, liveness=False, **over):
 # --------------------------------------------------------------------------
 CONT_NAMES = ["a", "svg", "switch"]
 TEXTCONT_NAMES = ["title", "desc"]
+# elements whose content is not processed: text-content elements and embedded foreign content
+# (a namespaced <svg> is copied through as it stands)
+TEXTCONT_FORMS = ["<title>c{i}</title>", "<desc>c{i}</desc>", "<style>.c{i} {{ fill: red; }}</style>",
+                  '<svg xmlns="http://www.w3.org/2000/svg" width="1" height="1"><rect width="1" height="1"/></svg>',
+                  '<svg xmlns="http://www.w3.org/2000/svg" width="1" height="1"/>',
+                  '<svg xmlns="http://www.w3.org/2000/svg"><g><g><circle r="1"/></g></g><!-- c{i} --></svg>']
 
 
 def expr_str(e, strmode):
@@ -85,7 +91,7 @@ class Conc:
         # own for the tag list, which must not matter
         self.lead = rnd.choice(["", "\n  ", " "]) if indent else ""
         self.cont_name = rnd.choice(CONT_NAMES)
-        self.tc_name = rnd.choice(TEXTCONT_NAMES)
+        self.tc_form = rnd.choice(TEXTCONT_FORMS)
         # loop family: the loop variable `a` takes values start, start+step, ...; scale them
         # by a dyadic factor (exact in f32) to cover fractional starts and steps
         # (2^-11 has eleven decimals: the loop variable keeps its full value, not a rounded one)
@@ -228,7 +234,7 @@ class Conc:
             return f'<g {" ".join(a)}>{self.lead}{kids}</g>{nl}'
         if k == "cont":
             if n["content"]:
-                return f'<{self.tc_name}>c{i}</{self.tc_name}>{nl}'
+                return self.tc_form.format(i=i) + nl
             return f'<{self.cont_name}>{self.lead}{kids}</{self.cont_name}>{nl}'
         if k == "var":
             a = [f'{x}="{fmtnum(e["v"] * self.vscale) if (x == "a" and e["t"] == "lit" and self.vscale != 1) else expr_str(e, self.strmode)}"'
@@ -749,7 +755,7 @@ def twin_check(rep, recs, seed, tag, what, deviation_preds=None, compare=None):
         sub2.random()
         c2 = Conc(rec, sub2, wrap=wrap, indent=True)
         # same container names for both members of the pair
-        c2.cont_name, c2.tc_name, c2.vscale = c1.cont_name, c1.tc_name, c1.vscale
+        c2.cont_name, c2.tc_form, c2.vscale = c1.cont_name, c1.tc_form, c1.vscale
         # a shared fixed random stream for optional attribute spellings
         c1.rnd = random.Random(j)
         c2.rnd = random.Random(j)
